@@ -17,6 +17,9 @@ import (
 type Case struct {
 	G   vkit.GJ `json:"g"`
 	Neg string  `json:"neg,omitempty"` // "" | collection | bounds | nonfinite
+	// Prefix: later paths of a multi-line string or polygon that are value-prefixes of its first path are handed over
+	// as re-slicings of that first path (line[:k]): two members that start at the same element and differ in length
+	Prefix bool `json:"prefix,omitempty"`
 }
 
 var six = []string{"Point", "MultiPoint", "LineString", "MultiLineString", "Polygon", "MultiPolygon"}
@@ -45,6 +48,13 @@ func gen(t *rapid.T) Case {
 		c.Neg = rapid.SampledFrom([]string{"collection_with_nil", "collection_with_nil_nested"}).Draw(t, "nilmember")
 	}
 	c.G = vkit.GenGJ(t, o)
+	if c.Neg == "" && (c.G.T == "MultiLineString" || c.G.T == "Polygon") && len(c.G.Rings) >= 1 && len(c.G.Rings[0]) >= 2 && rapid.IntRange(0, 5).Draw(t, "prefix") == 2 {
+		// one or two more members that are the first k points of the first member
+		for k, nk := 0, rapid.IntRange(1, 2).Draw(t, "prefixn"); k < nk; k++ {
+			c.G.Rings = append(c.G.Rings, append([]vkit.P2{}, c.G.Rings[0][:rapid.IntRange(1, len(c.G.Rings[0])).Draw(t, "prefixk")]...))
+		}
+		c.Prefix = true
+	}
 	if c.Neg == "" && rapid.IntRange(0, 11).Draw(t, "regular") == 7 {
 		// many polygons of one build (a tiled layer): 8-24 polygons with the same number of rings and shells of the same
 		// number of points, the holes with point counts of their own
@@ -133,6 +143,36 @@ func checkShape(v interface{}, depth int, want *[]vkit.P2) string {
 
 func run(c Case) (v vkit.Verdict) {
 	g, sameG := vkit.SharedGeom(c.G)
+	if c.Prefix && c.Neg == "" {
+		g, sameG = c.G.Geom(), func() string { return "" } // (slices of its own: the members are re-sliced below)
+		isPrefix := func(a, b []vkit.P2) bool {
+			if len(a) == 0 || len(a) > len(b) {
+				return false
+			}
+			for i := range a {
+				if a[i] != b[i] {
+					return false
+				}
+			}
+			return true
+		}
+		switch gg := g.(type) {
+		case geom.MultiLineString:
+			for j := 1; j < len(gg); j++ {
+				if isPrefix(c.G.Rings[j], c.G.Rings[0]) {
+					gg[j] = gg[0][:len(c.G.Rings[j])]
+					v.Class("member_is_a_prefix_window_of_the_first_member")
+				}
+			}
+		case geom.Polygon:
+			for j := 1; j < len(gg); j++ {
+				if isPrefix(c.G.Rings[j], c.G.Rings[0]) {
+					gg[j] = gg[0][:len(c.G.Rings[j])]
+					v.Class("member_is_a_prefix_window_of_the_first_member")
+				}
+			}
+		}
+	}
 	defer func() {
 		if m := sameG(); m != "" && !v.Bad {
 			v = v.Fail("the call changed the geometry it was given (point lists are sub-slices of one array with spare capacity): %s", m)
@@ -278,7 +318,8 @@ func TestProp(t *testing.T) {
 			"coordinates, RFC 7946 type name, nesting depth 1/2/2/3/3/4 with the member lengths of g, every position exactly two numbers that ParseFloat to the bits of (x,y) in order. " +
 			"Non-trivial = >=2 members/positions or a coordinate needing >=16 significant digits, or a non-finite negative case. Distinct by case hash." +
 			" Round 9: tiled layers (8-24 polygons with the same number of rings and shells of one size, holes of differing sizes)." +
-			" Round 11: collections with a nil member (directly or one level down) among the negatives.",
+			" Round 11: collections with a nil member (directly or one level down) among the negatives." +
+			" Round 12: one multi-line string or polygon in six gets one or two more members that are the first k points of its first member, handed over as re-slicings of it.",
 		Assumptions: []string{"nil and empty member slices are identified"},
 		Gen:         gen,
 		Run:         run,
